@@ -19,7 +19,7 @@ class Stream:
     a disagreement is a failing input by itself)."""
 
     def __init__(self, name, role, impl_lines, model_lines=None, judge=None, nontrivial=None,
-                 exhaustive=False, rule="", canon=None, impl_env=None, known=None, post=None, known_query=None, groups=None):
+                 exhaustive=False, rule="", canon=None, impl_env=None, known=None, post=None, known_query=None, groups=None, judge_query=None):
         self.name = name
         self.role = role
         self.impl_lines = impl_lines
@@ -38,6 +38,9 @@ class Stream:
         self.known_query = known_query
         # groups: [(env, lines)] — one implementation process per group, each with its own environment;
         # impl_lines is then the concatenation of the groups' lines
+        # judge_query(impl_line, impl_out) -> model line running the property's own checker on the
+        # implementation's behaviour; the answer "B:0" means the property fails on this input
+        self.judge_query = judge_query
         self.groups = groups
         if groups is not None:
             self.impl_lines = [l for _, ls in groups for l in ls]
@@ -188,6 +191,14 @@ def run_check(pid, tier, seed):
                     for (fid, ql), an in zip(qs, ans):
                         if an == "B:1":
                             kq[ql.split("\t", 1)[1]] = fid
+            jq = {}
+            if st.judge_query and mism:
+                qs = [(line, st.judge_query(line, a)) for (_, line, a, _) in mism[:3000]]
+                qs = [(l, q) for l, q in qs if q]
+                if qs:
+                    ans = rvlib.run_sharded(rvm, [q for _, q in qs], work, st.name + ".jq")
+                    for (l, _), an in zip(qs, ans):
+                        jq[l] = (an == "B:0")
             for (i, line, a, b) in mism[:5000]:
                 kid = st.known(line, a, b) if st.known else None
                 if not kid and kq:
@@ -200,6 +211,8 @@ def run_check(pid, tier, seed):
                     failing = True
                 elif st.judge:
                     failing = st.judge(line, a)
+                if not failing and line in jq:
+                    failing = jq[line]
                 rec = {"stream": st.name, "role": st.role, "impl_in": line, "impl_out": a, "model_out": b,
                        "fails_property": bool(failing)}
                 if failing:
